@@ -92,7 +92,11 @@ class Poly:
                     return Poly.const(a >> b)
             except (ValueError, OverflowError):
                 pass
-        if name in ('and', 'or', 'xor'):      # commutative bit operations
+        if name in ('min', 'max') and len(cs) == 2 and all(c is not None for c in cs):
+            return Poly.const(min(cs) if name == 'min' else max(cs))
+        if name in ('min', 'max') and len(args) == 2 and args[0] == args[1]:
+            return args[0]
+        if name in ('and', 'or', 'xor', 'min', 'max'):      # commutative operations
             args = tuple(sorted(args, key=_akey))
         return Poly.atom((name,) + tuple(args))
 
@@ -284,6 +288,8 @@ def show_atom(a):
             return show_bool(a[1])
         if tag == 'volatile':
             return 'volatile %s' % _sv(a[1])
+        if tag in ('min', 'max') and len(a) == 3:
+            return '%s(%s, %s)' % (tag, _sv(a[1]), _sv(a[2]))
         if tag in ('div', 'mod', 'and', 'or', 'xor', 'shl', 'shr') and len(a) == 3:
             sym = {'div': '/', 'mod': '%', 'and': '&', 'or': '|', 'xor': '^', 'shl': '<<', 'shr': '>>'}[tag]
             return '(%s %s %s)' % (_sv(a[1]), sym, _sv(a[2]))
@@ -654,7 +660,13 @@ class Normalizer:
             if op == '+':
                 return self.poly(ks[0])
             if op == '~':
-                return Poly.atom(('not', self.poly(ks[0])))
+                v = self.poly(ks[0])
+                c = v.as_int()
+                tr = type_range(tu.sd(n).get('ct'))
+                if c is not None and tr is not None:
+                    # complement in the width of the (promoted) operand type: unsigned max - c, signed -c-1
+                    return Poly.const(tr[1] - c if tr[0] == 0 else -c - 1)
+                return Poly.atom(('not', v))
             if op == '!':
                 return self.bool_value(('not', self.cond(ks[0])))
         if k == 'BinaryOperator':
